@@ -537,8 +537,9 @@ def mf_units(rng):
         M, E, K, f = nm("Mo"), nm("En"), nm("KC").upper(), nm("f")
         text = ("pub model %s:\n    a: int\n    b: int\n\npub enum %s:\n    Ci(int)\n    Em\n\npub const %s: int = 41\n\n"
                 "pub def %s(o: %s) -> int:\n    return o.a + o.b\n" % (M, E, K, f, M))
-        for kind, names, use in (("function+model", [M, f], ["o = %s(a=1, b=2)" % M, "println(%s(o))" % f]),
-                                 ("enum", [E], ["e = %s.Ci(3)" % E, "match e:", "    case %s.Ci(v):" % E, "        println(v)", "    case _:", "        println(0)"]),
+        ov, ev, vv = nm("o"), nm("e"), nm("v")        # entry-local names are unique per unit: the units share one main()
+        for kind, names, use in (("function+model", [M, f], ["%s = %s(a=1, b=2)" % (ov, M), "println(%s(%s))" % (f, ov)]),
+                                 ("enum", [E], ["%s = %s.Ci(3)" % (ev, E), "match %s:" % ev, "    case %s.Ci(%s):" % (E, vv), "        println(%s)" % vv, "    case _:", "        println(0)"]),
                                  ("const", [K], ["println(%s + 1)" % K])):
             # one unit per kind: its own copy of the module under its own directory
             dd = [nm("d")] + dirs
